@@ -161,12 +161,16 @@ def _check_closure_fn(program, ctx, rid, fn, hp, prop):
                 ctx.ok(rid, c, f"{q}: execute on the region's handle `{hp}`")
             else:
                 ctx.bad(finding_at(prop, rid, c, f"{q}: statement executed on `{recv}`, which is not the transaction handle handed down by add_event"))
+        if nm.endswith(".begin_nested"):
+            ctx.bad(finding_at(prop, rid, c, f"{q}: a SAVEPOINT (`{nm}()`) inside the event's transaction: with SQLite's deferred BEGIN the savepoint can be the outermost transaction, its RELEASE "
+                               "commits the statements executed so far (the older version is deleted before the new one is inserted), and a handler around it turns a failed write into a partial commit"))
         if nm.endswith((".begin", ".commit", ".rollback")) or (nm.endswith(".connect") and "db" in nm):
             # read-only helper queries of the forwarding recipe use run_single_query (own connection): not a write
             ctx.bad(finding_at(prop, rid, c, f"{q}: `{nm}()` inside the closure of the event's transaction: part of the event's effects is committed separately"))
     for t in walk_no_nested(fn):
         if isinstance(t, ast.Try) and t.handlers and any(_handler_swallows(h) for h in t.handlers):
-            if any(isinstance(c, ast.Call) and call_name(c).endswith(".execute") for s in t.body for c in ast.walk(s)):
+            if any(isinstance(c, ast.Call) and (call_name(c).endswith(".execute") or call_name(c).split(".")[-1] in ("pre_save", "post_save", "process_tags"))
+                   for s in t.body for c in ast.walk(s)):
                 ctx.bad(finding_at(prop, rid, t, f"{q}: a handler swallows an exception raised by a write inside the event's transaction"))
     if fn.name == "post_save" and "DBStorage" not in q and writes == 0:
         ctx.info(rid, fn, f"{q}: no writes (read-only/network work while the region is open - listed, not a violation of atomicity)")
@@ -240,9 +244,14 @@ def rule_kvregion(program, ctx):
                 if not any(isinstance(a, ast.Name) and a.id == "txn" for a in c.args) and not any(k.arg == "txn" for k in c.keywords):
                     okf = False
                     ctx.bad(finding_at(P, rid, c, f"{qual_of(fn)}: `{nm}` is not given the transaction"))
+        # local names bound to a txn operation: func = getattr(txn, operation) / put = txn.put
+        txn_ops = {st.targets[0].id for st in walk_no_nested(fn) if isinstance(st, ast.Assign) and isinstance(st.targets[0], ast.Name)
+                   and ((isinstance(st.value, ast.Call) and call_name(st.value) == "getattr" and st.value.args and dotted(st.value.args[0]) == "txn")
+                        or (isinstance(st.value, ast.Attribute) and dotted(st.value.value) == "txn"))}
         for t in walk_no_nested(fn):
             if isinstance(t, ast.Try) and t.handlers and any(_handler_swallows(h) for h in t.handlers):
-                if any(isinstance(c, ast.Call) and isinstance(c.func, ast.Attribute) and c.func.attr in mutators + ("put", "delete") for s in t.body for c in ast.walk(s)):
+                if any(isinstance(c, ast.Call) and ((isinstance(c.func, ast.Attribute) and c.func.attr in mutators + ("put", "delete")) or (isinstance(c.func, ast.Name) and c.func.id in txn_ops))
+                       for s in t.body for c in ast.walk(s)):
                     okf = False
                     ctx.bad(finding_at(P, rid, t, f"{qual_of(fn)}: a handler encloses an index write and swallows its failure"))
         if okf:
@@ -270,9 +279,9 @@ def rule_owner(program, ctx, prop=P, rid="C07.owner"):
                     ctx.bad(finding_at(prop, rid, c, f"LMDB keys are mutated in {q}, outside the index classes' write(): put and delete key derivations can diverge"))
 
 
-def rule_cascade(program, ctx):
-    rid = ctx.rule(
-        "C07.cascade",
+def rule_cascade(program, ctx, prop=P, rid="C07.cascade"):
+    ctx.rule(
+        rid,
         "tags.id is a foreign key with ondelete=\"CASCADE\" in storage.get_metadata() and in the alembic migration; _set_sqlite_pragma issues "
         "PRAGMA foreign_keys = ON and is registered as connect listener for non-postgres engines (otherwise superseded/deleted events leave tag rows)",
         floor=2,
@@ -282,7 +291,7 @@ def rule_cascade(program, ctx):
     if fk and all(any(k.arg == "ondelete" and isinstance(k.value, ast.Constant) and k.value.value == "CASCADE" for k in c.keywords) for c in fk):
         ctx.ok(rid, fk[0], "get_metadata: tags.id FK ondelete=CASCADE")
     else:
-        ctx.bad(finding_func(P, rid, gm, "tags.id foreign key lacks ondelete=\"CASCADE\": tag rows of a superseded/deleted event survive it", text="def get_metadata(...) :: cascade"))
+        ctx.bad(finding_func(prop, rid, gm, "tags.id foreign key lacks ondelete=\"CASCADE\": tag rows of a superseded/deleted event survive it", text="def get_metadata(...) :: cascade"))
     mig = program.modules.get("nostr_relay.alembic.versions.e748549d8d91_initial_tables")
     if mig is not None:
         okm = False
@@ -292,7 +301,7 @@ def rule_cascade(program, ctx):
                 if tbl is not None and tbl.args and tbl.args[0].value == "tags":
                     okm = any(k.arg == "ondelete" and isinstance(k.value, ast.Constant) and k.value.value == "CASCADE" for k in c.keywords)
                     if not okm:
-                        ctx.bad(finding_at(P, rid, c, "alembic: tags foreign key lacks ondelete=CASCADE"))
+                        ctx.bad(finding_at(prop, rid, c, "alembic: tags foreign key lacks ondelete=CASCADE"))
         if okm:
             ctx.ok(rid, mig.tree, "alembic: tags FK ondelete=CASCADE")
     sp = program.func("nostr_relay.storage.db:DBStorage._set_sqlite_pragma")
@@ -301,12 +310,12 @@ def rule_cascade(program, ctx):
     if re.search(r"PRAGMA\s+foreign_keys\s*=\s*ON", txt, re.I):
         ctx.ok(rid, sp, "PRAGMA foreign_keys = ON")
     else:
-        ctx.bad(finding_func(P, rid, sp, "SQLite connections no longer enable foreign_keys: ON DELETE CASCADE is inert", text="def _set_sqlite_pragma(...)"))
+        ctx.bad(finding_func(prop, rid, sp, "SQLite connections no longer enable foreign_keys: ON DELETE CASCADE is inert", text="def _set_sqlite_pragma(...)"))
     init = program.func("nostr_relay.storage.db:DBStorage.__init__")
     if any(isinstance(c, ast.Call) and call_name(c) == "sa.event.listen" and "_set_sqlite_pragma" in ast.unparse(c) and "connect" in ast.unparse(c) for c in ast.walk(init)):
         ctx.ok(rid, init, "pragma listener registered on engine connect")
     else:
-        ctx.bad(finding_func(P, rid, init, "the SQLite pragma listener is no longer registered", text="def __init__(...) :: listen"))
+        ctx.bad(finding_func(prop, rid, init, "the SQLite pragma listener is no longer registered", text="def __init__(...) :: listen"))
 
 
 def rule_foreign(program, ctx, prop=P, rid="C07.foreign"):
@@ -336,13 +345,84 @@ def rule_foreign(program, ctx, prop=P, rid="C07.foreign"):
                                      "transaction aborts (or the process dies) the two stores disagree", text=f"def {meth}(...) :: ignores txn"))
 
 
+def rule_isolation(program, ctx, prop=P, rid="C07.isolation"):
+    ctx.rule(
+        rid,
+        "nothing in the SQL backend switches connections to autocommit: no store to `.isolation_level` / `.autocommit` of a DBAPI connection (the connect hook "
+        "included) and no isolation_level / AUTOCOMMIT engine or execution option - otherwise `async with self.db.begin()` is no transaction and each statement of an event commits alone",
+        floor=1,
+    )
+    from ..cfg import cfg_of
+    m = program.module("nostr_relay.storage.db")
+    bad = 0
+    for fn in [f for f in ast.walk(m.tree) if isinstance(f, (ast.FunctionDef, ast.AsyncFunctionDef))]:
+        stores = [n for n in walk_no_nested(fn) if isinstance(n, ast.Assign) and any(isinstance(t, ast.Attribute) and t.attr in ("isolation_level", "autocommit") for t in n.targets)]
+        if not stores:
+            continue
+        # saved = conn.isolation_level … conn.isolation_level = saved on *every* path to an exit is a faithful restore
+        saved = {n.targets[0].id for n in walk_no_nested(fn) if isinstance(n, ast.Assign) and isinstance(n.targets[0], ast.Name) and isinstance(n.value, ast.Attribute) and n.value.attr in ("isolation_level", "autocommit")}
+        cfg = cfg_of(fn)
+        restore = [x for st in stores if isinstance(st.value, ast.Name) and st.value.id in saved for x in cfg.nodes_of(st)]
+        for st in stores:
+            if isinstance(st.value, ast.Name) and st.value.id in saved:
+                continue
+            leak = cfg.find_path(cfg.nodes_of(st), [cfg.exit, cfg.raise_exit], avoid_nodes=set(restore)) if restore else [1]
+            if leak:
+                bad += 1
+                ctx.bad(finding_at(prop, rid, st, f"`{norm(st, 70)}` changes the transaction mode of a pooled connection and a path to the function's exit does not restore the saved mode "
+                                   "(a truthiness test skips it for the sqlite3 default ''): the connection stays in autocommit and add_event's transaction is none"))
+    for n in ast.walk(m.tree):
+        if isinstance(n, ast.Call) and any(k.arg == "isolation_level" for k in n.keywords):
+            bad += 1
+            ctx.bad(finding_at(prop, rid, n, "an isolation_level option is set on the engine / connection"))
+        if isinstance(n, ast.Call) and call_name(n) == "setattr" and len(n.args) >= 2 and isinstance(n.args[1], ast.Constant) and n.args[1].value in ("isolation_level", "autocommit"):
+            bad += 1
+            ctx.bad(finding_at(prop, rid, n, "setattr(…, 'isolation_level', …)"))
+    sp = program.func("nostr_relay.storage.db:DBStorage._set_sqlite_pragma")
+    if not bad:
+        ctx.ok(rid, sp, "no transaction-mode switch in storage/db.py (connect hook only issues PRAGMAs)")
+
+
+def rule_ctxmgr(program, ctx, prop=P, rid="C07.ctxmgr"):
+    ctx.rule(
+        rid,
+        "generator-based context managers used inside the write transaction (Index.scanner, MultiIndex.scanner, …) do not catch around their `yield`: an `except` there "
+        "receives every exception raised in the *caller's* with-body (contextlib throws it into the generator) and, unless it re-raises, suppresses it - the writer's "
+        "clean-up stops half-way and the transaction commits",
+        floor=2,
+    )
+    for m in program.modules.values():
+        if m.rel.startswith("<dep>"):
+            continue
+        for fn in [f for f in ast.walk(m.tree) if isinstance(f, (ast.FunctionDef, ast.AsyncFunctionDef))]:
+            if not any(dotted(d).split(".")[-1] in ("contextmanager", "asynccontextmanager") for d in fn.decorator_list):
+                continue
+            ys = [y for y in walk_no_nested(fn) if isinstance(y, (ast.Yield, ast.YieldFrom))]
+            okf = True
+            for y in ys:
+                for t in [a for a in ancestors(y) if isinstance(a, ast.Try)]:
+                    if any(y is z for s2 in t.body for z in ast.walk(s2)):
+                        for h in t.handlers:
+                            if _handler_swallows(h):
+                                okf = False
+                                ctx.bad(finding_at(prop, rid, h, f"{qual_of(fn)}: `{norm(h, 50)}` around the yield swallows exceptions raised in the with-body of every caller "
+                                                   "(for WriterThread._post_save: a failed txn.delete no longer aborts the write transaction)"))
+            if okf and ys:
+                ctx.ok(rid, fn, f"{qual_of(fn)}: no swallowing handler around the yield")
+
+
 def run(program, ctx):
+    from ..lib import rule_awaited
+
+    rule_awaited(program, ctx, P, ANCHORS)
     rule_sqlregion(program, ctx)
     c19.rule_slots(program, ctx, prop=P, rid="C07.slots")
     rule_kvregion(program, ctx)
     rule_owner(program, ctx)
     rule_cascade(program, ctx)
     rule_foreign(program, ctx)
+    rule_isolation(program, ctx)
+    rule_ctxmgr(program, ctx)
     ctx.not_decided += [
         "that SQLite WAL / PostgreSQL / LMDB deliver atomic commit and recovery after kill -9 (trusted engines)",
         "Python-level faults between commit and broadcast",
